@@ -314,6 +314,14 @@ func (f *Frame) dispatchCall(instr ssa.Instruction, c *ssa.CallCommon, args []Va
 			name = alt
 		}
 	}
+	if f.parent == nil && e.contract != nil {
+		for _, pat := range e.contract.Opaque {
+			if matchPattern(pat, name) {
+				e.note("callee treated as an unknown call here (opaque): " + name)
+				return f.unknownCall(instr, c, args, rt, name)
+			}
+		}
+	}
 	if ct := e.p.contracts.ByKey[name]; ct != nil {
 		if !(f.parent == nil && c.StaticCallee() == f.fn && false) {
 			return f.applyContract(instr, ct, c, args, rt, name)
